@@ -97,6 +97,35 @@ Proof. exact reject_reply_spec. Qed.
 
 (* ---- the default policy ---- *)
 
+(* ---- stream messages: framing (serveTCPConn / readTCP) ---- *)
+
+(* A stream carrying the messages ms, each preceded by its two-octet length,
+   and then nothing, half a length prefix or a frame the stream does not
+   complete, is read back as exactly those messages in order (at most [limit]
+   of them per connection).  The stream is an octet string: how the transport
+   cuts it into reads is not an input. *)
+Theorem stream_messages_read_in_order :
+  forall (ms : list bytes) (t : bytes) (limit : nat),
+    Forall (fun m => lenN m < 65536) ms -> incomplete_frame t ->
+    read_frames limit (flat_map frame ms ++ t) = firstn limit ms.
+Proof. exact read_frames_framed. Qed.
+
+(* ... so every message of the stream is served as it would be alone: the
+   handler calls of the connection are those of its messages, in order. *)
+Theorem stream_messages_each_served :
+  forall (R : Type) (accept : header -> action) (unpack : bytes -> unpack_result R)
+         (ms : list bytes) (t : bytes) (limit : nat),
+    Forall (fun m => lenN m < 65536) ms -> incomplete_frame t -> (length ms <= limit)%nat ->
+    serve_stream accept unpack limit (flat_map frame ms ++ t) =
+      flat_map (serve accept unpack Tcp) ms /\
+    handler_calls (serve_stream accept unpack limit (flat_map frame ms ++ t)) =
+      flat_map (fun m => handler_calls (serve accept unpack Tcp m)) ms.
+Proof.
+  intros R accept unpack ms t limit Hl Ht Hn. split.
+  - rewrite (serve_stream_framed accept unpack ms t limit Hl Ht), firstn_all2 by exact Hn. reflexivity.
+  - exact (serve_stream_handler_calls accept unpack ms t limit Hl Ht Hn).
+Qed.
+
 (* defaultMsgAcceptFunc, completely: a function of QR, opcode and the four counts *)
 Theorem default_policy_complete :
   forall dh : header,
